@@ -19,7 +19,7 @@ import (
 func init() {
 	Register(&Property{
 		ID: "C18",
-		Explanation: "Decides that both directions of each relationship encoding talk about the same keys, fields and separators: (R18.1) the set of (URL key, struct field) pairs written by ToURLQuery equals the set read by FromURLQuery, for queries and subject sets, and the subject-id and subject-set key groups are disjoint; (R18.2) the protobuf decoders read the same (message field, struct field) pairs the encoders write, and discriminate the subject oneof by its presence (a type switch on the wrapper), never by the emptiness of a value; (R18.3) the separators the string form writes, in order, are the separators FromString cuts on, in order, and the relation-tuple file parser hands each trimmed line to FromString unmodified (comments are recognised by prefix only); (R18.4) every exported field of the API structs has a JSON name and no two fields of a struct share one. " +
+		Explanation: "Decides that both directions of each relationship encoding talk about the same keys, fields and separators: (R18.1) the set of (URL key, struct field) pairs written by ToURLQuery equals the set read by FromURLQuery, for queries and subject sets, the subject-id and subject-set key groups are disjoint, and every key write is guarded by presence tests only (never by the value); (R18.2) the protobuf decoders read the same (message field, struct field) pairs the encoders write, and discriminate the subject oneof by its presence (a type switch on the wrapper), never by the emptiness of a value; (R18.3) the separators the string form writes, in order, are the separators FromString cuts on, in order, and the relation-tuple file parser hands each trimmed line to FromString unmodified (comments are recognised by prefix only); (R18.4) every exported field of the API structs has a JSON name and no two fields of a struct share one. " +
 			"Not decided: round-trip equality over all strings, escaping, the documented domain restriction of the string form.",
 		Assumptions: []string{"encoding/json is symmetric for tagged exported fields"},
 		Run:         runC18,
@@ -183,6 +183,49 @@ func runC18(c *Ctx) {
 		r.Check(strings.Join(sw, ",") == strings.Join(sr, ",") && len(sw) >= 3, "R18.1", name, "URL key <-> field table", p.Pos(w.Pos()),
 			fmt.Sprintf("writer and reader agree on %d (key, field) pairs: %v", len(sw), sw),
 			fmt.Sprintf("the URL encoder and decoder disagree: written %v, read %v", sw, sr))
+		// a key is written whenever its field is present: the only guards of a write are
+		// nil tests (presence); a guard on the *value* (e.g. != "") makes the writer drop
+		// a key that the reader requires, or merge two different values
+		var valueGuards []string
+		ast.Inspect(w.Body, func(n ast.Node) bool {
+			call, ok := n.(*ast.CallExpr)
+			if !ok {
+				return true
+			}
+			sel, ok := call.Fun.(*ast.SelectorExpr)
+			if !ok || (sel.Sel.Name != "Add" && sel.Sel.Name != "Set") || len(call.Args) != 2 {
+				return true
+			}
+			if _, ok := constName(pkg.TypesInfo, call.Args[0]); !ok {
+				return true
+			}
+			for _, g := range guardsOf(w.Body, call) {
+				conj := []ast.Expr{g.Cond}
+				if g.True {
+					conj = nil
+					var split func(e ast.Expr)
+					split = func(e ast.Expr) {
+						if be, ok := unparen(e).(*ast.BinaryExpr); ok && be.Op == token.LAND {
+							split(be.X)
+							split(be.Y)
+							return
+						}
+						conj = append(conj, e)
+					}
+					split(g.Cond)
+				}
+				for _, cj := range conj {
+					_, _, y, ok := cmpParts(pkg.TypesInfo, cj)
+					if ok && isNilExpr(pkg.TypesInfo, y) {
+						continue
+					}
+					valueGuards = append(valueGuards, fmt.Sprintf("%s is written only if %s (%s)", types.ExprString(call.Args[0]), types.ExprString(cj), p.Pos(call.Pos())))
+				}
+			}
+			return true
+		})
+		r.Check(len(valueGuards) == 0, "R18.1", name, "keys written whenever the field is present", p.Pos(w.Pos()),
+			"every key write is guarded by presence (nil) tests only", strings.Join(valueGuards, "; ")+": the decoder requires the key (or distinguishes absent from empty), so some values do not survive the round trip")
 		if typ == "RelationQuery" {
 			// key groups disjoint
 			idKeys, setKeys := map[string]bool{}, map[string]bool{}
